@@ -301,4 +301,108 @@ theorem finish_ok_errors (c : Consts) (w : Writer) (nowMs : Nat) (out : Out)
   | true => rfl
   | false => simp [he] at h
 
+/-! ### A writer with a byte budget that did not fail behaves like one that never fails -/
+
+/-- `o` (any budget) has not failed and has accepted the same bytes as the unlimited writer `u` -/
+def OutSim (o u : Out) : Prop := u.budget = none ∧ u.failed = false ∧ o.failed = false ∧ o.bytes = u.bytes
+
+theorem writeAll_sim {o u : Out} (h : OutSim o u) (bufs : List Bytes)
+    (hf : (o.writeAll bufs).failed = false) : OutSim (o.writeAll bufs) (u.writeAll bufs) := by
+  obtain ⟨hb, huf, hof, hbytes⟩ := h
+  obtain ⟨ub, ubytes, ufailed⟩ := u
+  obtain ⟨ob, obytes, ofailed⟩ := o
+  simp only at hb huf hof hbytes
+  subst hb huf hof hbytes
+  cases ob with
+  | none => exact ⟨rfl, rfl, rfl, rfl⟩
+  | some b =>
+    unfold Out.writeAll at hf ⊢
+    simp only at hf ⊢
+    split
+    · exact ⟨rfl, rfl, rfl, rfl⟩
+    · rename_i hgt; rw [if_neg hgt] at hf; cases hf
+
+theorem finishDims_sim (c : Consts) (ts sf : Bytes) (dm : List DimEntry) {o u : Out} (h : OutSim o u) (any : Bool)
+    (hf : (finishDims c ts sf dm o any).2.1.failed = false) :
+    OutSim (finishDims c ts sf dm o any).2.1 (finishDims c ts sf dm u any).2.1 ∧
+    (finishDims c ts sf dm o any).2.2 = (finishDims c ts sf dm u any).2.2 ∧
+    (finishDims c ts sf dm o any).1 = (finishDims c ts sf dm u any).1 := by
+  induction dm generalizing o u any with
+  | nil => exact ⟨h, rfl, rfl⟩
+  | cons e rest ih =>
+    unfold finishDims at hf ⊢
+    simp only at hf ⊢
+    cases hemp : e.fieldsBuf.isEmpty with
+    | true =>
+      simp only [hemp, ↓reduceIte] at hf ⊢
+      obtain ⟨h1, h2, h3⟩ := ih h any hf
+      exact ⟨h1, h2, by rw [h3]⟩
+    | false =>
+      simp only [hemp, Bool.false_eq_true, ↓reduceIte] at hf ⊢
+      cases hw : (o.writeAll [(finishEntryMetrics c ts e).buf, e.fieldsBuf.buf, sf]).failed with
+      | true => simp [hw] at hf
+      | false =>
+        have hs := writeAll_sim h _ hw
+        simp only [hw, Bool.false_eq_true, ↓reduceIte] at hf ⊢
+        simp only [hs.2.1, Bool.false_eq_true, ↓reduceIte]
+        obtain ⟨h1, h2, h3⟩ := ih hs true hf
+        exact ⟨h1, h2, by rw [h3]⟩
+
+theorem finishGlobal_sim (c : Consts) (st : State) (dims : List Bytes) {o u : Out} (h : OutSim o u)
+    (hok : (finishGlobal c st dims o).2.1 = .ok) :
+    (finishGlobal c st dims u).2.1 = .ok ∧
+    (finishGlobal c st dims o).2.2.bytes = (finishGlobal c st dims u).2.2.bytes := by
+  unfold finishGlobal at hok ⊢
+  simp only at hok ⊢
+  split at hok
+  · cases hok
+  · rename_i hnf
+    have hs := writeAll_sim h _ (by simpa using hnf)
+    simp only [hs.2.1, Bool.false_eq_true, ↓reduceIte, true_and]
+    exact hs.2.2.2
+
+theorem finishWrite_sim (c : Consts) (st : State) (dims : List Bytes) (ts : Bytes) {o u : Out} (h : OutSim o u)
+    (hok : (finishWrite c st dims ts o).2.1 = .ok) :
+    (finishWrite c st dims ts u).2.1 = .ok ∧
+    (finishWrite c st dims ts o).2.2.bytes = (finishWrite c st dims ts u).2.2.bytes := by
+  unfold finishWrite at hok ⊢
+  simp only at hok ⊢
+  cases hfail : (finishDims c ts (st.stringFieldsBuf.pushRaw (bytes! "}\n")).buf st.dimMap o false).2.1.failed with
+  | true =>
+    generalize finishDims c ts (st.stringFieldsBuf.pushRaw (bytes! "}\n")).buf st.dimMap o false = r at *
+    obtain ⟨dm, o1, any⟩ := r
+    simp only at hfail
+    simp [hfail] at hok
+  | false =>
+    obtain ⟨h1, h2, h3⟩ := finishDims_sim c ts (st.stringFieldsBuf.pushRaw (bytes! "}\n")).buf st.dimMap h false hfail
+    generalize finishDims c ts (st.stringFieldsBuf.pushRaw (bytes! "}\n")).buf st.dimMap o false = r at *
+    generalize finishDims c ts (st.stringFieldsBuf.pushRaw (bytes! "}\n")).buf st.dimMap u false = r' at *
+    obtain ⟨dm, o1, any⟩ := r
+    obtain ⟨dm', u1, any'⟩ := r'
+    simp only at hfail h1 h2 h3 hok ⊢
+    subst h2 h3
+    simp only [hfail, h1.2.1, Bool.false_eq_true, ↓reduceIte] at hok ⊢
+    split
+    · rename_i hg
+      simp only [hg, ↓reduceIte] at hok
+      exact finishGlobal_sim c _ dims h1 hok
+    · exact ⟨rfl, h1.2.2.2⟩
+
+/-- a successful call with a budget-limited writer wrote exactly what it writes to a writer that never fails -/
+theorem format_ok_unlimited (c : Consts) (s : State) (call : Call) (hok : (format c s call).2.1 = .ok) :
+    (format c s { call with ioBudget := none }).2.1 = .ok ∧
+    (format c s call).2.2.bytes = (format c s { call with ioBudget := none }).2.2.bytes := by
+  unfold format at hok ⊢
+  cases hb : call.badRate with
+  | true => simp [hb] at hok
+  | false =>
+    simp only [hb, Bool.false_eq_true, ↓reduceIte] at hok ⊢
+    unfold formatWithMultiplicity finish at hok ⊢
+    simp only at hok ⊢
+    split
+    · rename_i he; simp [he] at hok
+    · rename_i he
+      simp only [he, Bool.false_eq_true, ↓reduceIte] at hok
+      exact finishWrite_sim c _ _ _ (o := ⟨call.ioBudget, [], false⟩) (u := ⟨none, [], false⟩) ⟨rfl, rfl, rfl, rfl⟩ hok
+
 end Emf
